@@ -122,21 +122,21 @@ E(vp_h14g_ms, prop_bin<chr::milliseconds>(in, out)) E(vp_h14g_s, prop_bin<chr::s
 //@ OBL {"name": "h14a_days", "prop": "vp_h14a_days", "in": 8, "out": 16, "unwind": 8, "backends": ["kissat", "default"], "cap_s": 900, "cassume": ["RD64(in,0) < (1LL<<16) && RD64(in,0) > -(1LL<<16)"], "bounds": "every day number |z| < 2^16 (1790..2149: contains 1800/1900/2100 non-leap and 2000 leap century years)", "desc": "To(time_point<days>): fields == proleptic Gregorian date of the day number (independent reference)", "unwind_fn": {"VA9_snprintf": 50, "verif_ndigits": 22}}
 //@ OBL {"name": "h14a_days_T", "prop": "vp_h14a_days", "in": 8, "out": 16, "unwind": 8, "backends": ["kissat", "default"], "cap_s": 3600, "cassume": ["RD64(in,0) < (1LL<<20) && RD64(in,0) > -(1LL<<20)"], "bounds": "every day number |z| < 2^20 (years -901..4840)", "desc": "To(time_point<days>): fields == proleptic Gregorian date of the day number (independent reference)", "unwind_fn": {"VA9_snprintf": 50, "verif_ndigits": 22}, "tier": "thorough", "supersedes": "h14a_days"}
 //@ OBL {"name": "h14a_s", "prop": "vp_h14a_s", "in": 8, "out": 16, "unwind": 8, "backends": ["kissat", "default"], "cap_s": 900, "cassume": ["RD64(in,0) < (1LL<<24) && RD64(in,0) > -(1LL<<24)"], "bounds": "every second |t| < 2^24 (time-of-day split and day boundary; the calendar itself: h14a_days)", "desc": "To(time_point<seconds>): date and time of day", "unwind_fn": {"VA9_snprintf": 50, "verif_ndigits": 22}}
-//@ OBL {"name": "h14a_s_T", "prop": "vp_h14a_s", "in": 8, "out": 16, "unwind": 8, "backends": ["kissat", "default"], "cap_s": 3600, "cassume": ["RD64(in,0) < (1LL<<36) && RD64(in,0) > -(1LL<<36)"], "bounds": "every second |t| < 2^36 (+-2177 years)", "desc": "To(time_point<seconds>): date and time of day", "unwind_fn": {"VA9_snprintf": 50, "verif_ndigits": 22}, "tier": "thorough", "supersedes": "h14a_s"}
+//@ OBL {"name": "h14a_s_T", "prop": "vp_h14a_s", "in": 8, "out": 16, "unwind": 8, "backends": ["kissat", "default"], "cap_s": 3600, "cassume": ["RD64(in,0) < (1LL<<36) && RD64(in,0) > -(1LL<<36)"], "bounds": "every second |t| < 2^36 (+-2177 years)", "desc": "To(time_point<seconds>): date and time of day", "unwind_fn": {"VA9_snprintf": 50, "verif_ndigits": 22}, "tier": "open", "supersedes": "h14a_s"}
 //@ OBL {"name": "h14a_h", "prop": "vp_h14a_h", "in": 8, "out": 16, "unwind": 8, "backends": ["kissat", "default"], "cap_s": 3600, "cassume": ["RD64(in,0) < (1LL<<24) && RD64(in,0) > -(1LL<<24)"], "bounds": "every hour |t| < 2^24", "desc": "To(time_point<hours>)", "unwind_fn": {"VA9_snprintf": 50, "verif_ndigits": 22}, "tier": "thorough"}
-//@ OBL {"name": "h14a_ms", "prop": "vp_h14a_ms", "in": 8, "out": 16, "unwind": 8, "backends": ["kissat", "default"], "cap_s": 3600, "cassume": ["RD64(in,0) < (1LL<<40) && RD64(in,0) > -(1LL<<40)"], "bounds": "every millisecond |t| < 2^40 (+-34 years)", "desc": "To(time_point<milliseconds>): whole-second part", "unwind_fn": {"VA9_snprintf": 50, "verif_ndigits": 22}, "tier": "thorough"}
+//@ OBL {"name": "h14a_ms", "prop": "vp_h14a_ms", "in": 8, "out": 16, "unwind": 8, "backends": ["kissat", "default"], "cap_s": 3600, "cassume": ["RD64(in,0) < (1LL<<40) && RD64(in,0) > -(1LL<<40)"], "bounds": "every millisecond |t| < 2^40 (+-34 years)", "desc": "To(time_point<milliseconds>): whole-second part", "unwind_fn": {"VA9_snprintf": 50, "verif_ndigits": 22}, "tier": "open"}
 //@ OBL {"name": "h14b_s", "prop": "vp_h14b_s", "in": 8, "out": 16, "unwind": 8, "backends": ["kissat", "default"], "cap_s": 900, "assume": "va_fields", "bounds": "years 1896..2104 (quick window; thorough: -9999..9999), every 00..99 value in the other fields", "desc": "To(string_view, time_point<seconds>&): exact instant (independent day-count reference), invalid_argument for impossible dates (incl. Feb 29 of non-leap years), out_of_range when not representable", "unwind_fn": {"VA9_snprintf": 50, "verif_ndigits": 22}, "cassume": ["RD16(in,0) >= 1896 && RD16(in,0) <= 2104"]}
 //@ OBL {"name": "h14b_s_neg", "prop": "vp_h14b_s", "in": 8, "out": 16, "unwind": 8, "backends": ["kissat", "default"], "cap_s": 900, "assume": "va_fields", "bounds": "years -0404..-0396 (negative years around a 400-year boundary)", "desc": "To(string_view, time_point<seconds>&): exact instant (independent day-count reference), invalid_argument for impossible dates (incl. Feb 29 of non-leap years), out_of_range when not representable", "unwind_fn": {"VA9_snprintf": 50, "verif_ndigits": 22}, "cassume": ["RD16(in,0) >= -404 && RD16(in,0) <= -396"]}
-//@ OBL {"name": "h14b_s_T", "prop": "vp_h14b_s", "in": 8, "out": 16, "unwind": 8, "backends": ["kissat", "default"], "cap_s": 3600, "assume": "va_fields", "bounds": "years -9999..9999, every two-digit value 00..99 in each other field (invalid ones must be rejected)", "desc": "To(string_view, time_point<seconds>&): exact instant (independent day-count reference), invalid_argument for impossible dates (incl. Feb 29 of non-leap years), out_of_range when not representable", "unwind_fn": {"VA9_snprintf": 50, "verif_ndigits": 22}, "tier": "thorough", "supersedes": "h14b_s"}
+//@ OBL {"name": "h14b_s_T", "prop": "vp_h14b_s", "in": 8, "out": 16, "unwind": 8, "backends": ["kissat", "default"], "cap_s": 3600, "assume": "va_fields", "bounds": "years -9999..9999, every two-digit value 00..99 in each other field (invalid ones must be rejected)", "desc": "To(string_view, time_point<seconds>&): exact instant (independent day-count reference), invalid_argument for impossible dates (incl. Feb 29 of non-leap years), out_of_range when not representable", "unwind_fn": {"VA9_snprintf": 50, "verif_ndigits": 22}, "tier": "open", "supersedes": "h14b_s"}
 //@ OBL {"name": "h14b_days", "prop": "vp_h14b_days", "in": 8, "out": 16, "unwind": 8, "backends": ["kissat", "default"], "cap_s": 900, "assume": "va_fields", "bounds": "years 1896..2104 (quick window; thorough: -9999..9999), every 00..99 value in the other fields", "desc": "To(string_view, time_point<days>&): exact instant (independent day-count reference), invalid_argument for impossible dates (incl. Feb 29 of non-leap years), out_of_range when not representable", "unwind_fn": {"VA9_snprintf": 50, "verif_ndigits": 22}, "cassume": ["RD16(in,0) >= 1896 && RD16(in,0) <= 2104"]}
-//@ OBL {"name": "h14b_days_T", "prop": "vp_h14b_days", "in": 8, "out": 16, "unwind": 8, "backends": ["kissat", "default"], "cap_s": 3600, "assume": "va_fields", "bounds": "years -9999..9999, every two-digit value 00..99 in each other field (invalid ones must be rejected)", "desc": "To(string_view, time_point<days>&): exact instant (independent day-count reference), invalid_argument for impossible dates (incl. Feb 29 of non-leap years), out_of_range when not representable", "unwind_fn": {"VA9_snprintf": 50, "verif_ndigits": 22}, "tier": "thorough", "supersedes": "h14b_days"}
-//@ OBL {"name": "h14b_min_T", "prop": "vp_h14b_min", "in": 8, "out": 16, "unwind": 8, "backends": ["kissat", "default"], "cap_s": 3600, "assume": "va_fields", "bounds": "years -9999..9999, every two-digit value 00..99 in each other field (invalid ones must be rejected)", "desc": "To(string_view, time_point<minutes>&): exact instant (independent day-count reference), invalid_argument for impossible dates (incl. Feb 29 of non-leap years), out_of_range when not representable", "unwind_fn": {"VA9_snprintf": 50, "verif_ndigits": 22}, "tier": "thorough"}
-//@ OBL {"name": "h14b_ns_T", "prop": "vp_h14b_ns", "in": 8, "out": 16, "unwind": 8, "backends": ["kissat", "default"], "cap_s": 3600, "assume": "va_fields", "bounds": "years -9999..9999, every two-digit value 00..99 in each other field (invalid ones must be rejected)", "desc": "To(string_view, time_point<nanoseconds>&): exact instant (independent day-count reference), invalid_argument for impossible dates (incl. Feb 29 of non-leap years), out_of_range when not representable", "unwind_fn": {"VA9_snprintf": 50, "verif_ndigits": 22}, "tier": "thorough"}
-//@ OBL {"name": "h14c_s", "prop": "vp_h14c_s", "in": 8, "out": 16, "unwind": 24, "backends": ["kissat", "default"], "cap_s": 3600, "cassume": ["RD64(in,0) < (1LL<<36) && RD64(in,0) > -(1LL<<36)"], "bounds": "|t| < 2^36 seconds", "desc": "print -> parse identity through the real text (exact digit rendering)", "unwind_fn": {"VA9_snprintf": 50, "verif_ndigits": 22}, "tier": "thorough"}
-//@ OBL {"name": "h14c_days", "prop": "vp_h14c_days", "in": 8, "out": 16, "unwind": 24, "backends": ["kissat", "default"], "cap_s": 3600, "cassume": ["RD64(in,0) < (1LL<<20) && RD64(in,0) > -(1LL<<20)"], "bounds": "|z| < 2^20 days", "desc": "print -> parse identity, days based", "unwind_fn": {"VA9_snprintf": 50, "verif_ndigits": 22}, "tier": "thorough"}
-//@ OBL {"name": "h14f_s", "prop": "vp_h14f_s", "in": 8, "out": 16, "unwind": 14, "backends": ["kissat", "default"], "cap_s": 3600, "cassume": ["RD64(in,0) < (1LL<<12) && RD64(in,0) > -(1LL<<12)"], "bounds": "|count| < 2^12", "desc": "duration print -> parse identity, shape [-]P...", "unwind_fn": {"VA9_snprintf": 50, "verif_ndigits": 22}, "tier": "thorough"}
-//@ OBL {"name": "h14f_ms", "prop": "vp_h14f_ms", "in": 8, "out": 16, "unwind": 14, "backends": ["kissat", "default"], "cap_s": 3600, "cassume": ["RD64(in,0) < (1LL<<12) && RD64(in,0) > -(1LL<<12)"], "bounds": "|count| < 2^12", "desc": "duration<ms> print -> parse identity (fraction digits)", "unwind_fn": {"VA9_snprintf": 50, "verif_ndigits": 22}, "tier": "thorough"}
-//@ OBL {"name": "h14f_h", "prop": "vp_h14f_h", "in": 8, "out": 16, "unwind": 14, "backends": ["kissat", "default"], "cap_s": 3600, "cassume": ["RD64(in,0) < (1LL<<12) && RD64(in,0) > -(1LL<<12)"], "bounds": "|count| < 2^12", "desc": "duration<hours> print -> parse identity", "unwind_fn": {"VA9_snprintf": 50, "verif_ndigits": 22}, "tier": "thorough"}
+//@ OBL {"name": "h14b_days_T", "prop": "vp_h14b_days", "in": 8, "out": 16, "unwind": 8, "backends": ["kissat", "default"], "cap_s": 3600, "assume": "va_fields", "bounds": "years -9999..9999, every two-digit value 00..99 in each other field (invalid ones must be rejected)", "desc": "To(string_view, time_point<days>&): exact instant (independent day-count reference), invalid_argument for impossible dates (incl. Feb 29 of non-leap years), out_of_range when not representable", "unwind_fn": {"VA9_snprintf": 50, "verif_ndigits": 22}, "tier": "open", "supersedes": "h14b_days"}
+//@ OBL {"name": "h14b_min_T", "prop": "vp_h14b_min", "in": 8, "out": 16, "unwind": 8, "backends": ["kissat", "default"], "cap_s": 3600, "assume": "va_fields", "bounds": "years -9999..9999, every two-digit value 00..99 in each other field (invalid ones must be rejected)", "desc": "To(string_view, time_point<minutes>&): exact instant (independent day-count reference), invalid_argument for impossible dates (incl. Feb 29 of non-leap years), out_of_range when not representable", "unwind_fn": {"VA9_snprintf": 50, "verif_ndigits": 22}, "tier": "open"}
+//@ OBL {"name": "h14b_ns_T", "prop": "vp_h14b_ns", "in": 8, "out": 16, "unwind": 8, "backends": ["kissat", "default"], "cap_s": 3600, "assume": "va_fields", "bounds": "years -9999..9999, every two-digit value 00..99 in each other field (invalid ones must be rejected)", "desc": "To(string_view, time_point<nanoseconds>&): exact instant (independent day-count reference), invalid_argument for impossible dates (incl. Feb 29 of non-leap years), out_of_range when not representable", "unwind_fn": {"VA9_snprintf": 50, "verif_ndigits": 22}, "tier": "open"}
+//@ OBL {"name": "h14c_s", "prop": "vp_h14c_s", "in": 8, "out": 16, "unwind": 24, "backends": ["kissat", "default"], "cap_s": 3600, "cassume": ["RD64(in,0) < (1LL<<36) && RD64(in,0) > -(1LL<<36)"], "bounds": "|t| < 2^36 seconds", "desc": "print -> parse identity through the real text (exact digit rendering)", "unwind_fn": {"VA9_snprintf": 50, "verif_ndigits": 22}, "tier": "open"}
+//@ OBL {"name": "h14c_days", "prop": "vp_h14c_days", "in": 8, "out": 16, "unwind": 24, "backends": ["kissat", "default"], "cap_s": 3600, "cassume": ["RD64(in,0) < (1LL<<20) && RD64(in,0) > -(1LL<<20)"], "bounds": "|z| < 2^20 days", "desc": "print -> parse identity, days based", "unwind_fn": {"VA9_snprintf": 50, "verif_ndigits": 22}, "tier": "open"}
+//@ OBL {"name": "h14f_s", "prop": "vp_h14f_s", "in": 8, "out": 16, "unwind": 14, "backends": ["kissat", "default"], "cap_s": 3600, "cassume": ["RD64(in,0) < (1LL<<12) && RD64(in,0) > -(1LL<<12)"], "bounds": "|count| < 2^12", "desc": "duration print -> parse identity, shape [-]P...", "unwind_fn": {"VA9_snprintf": 50, "verif_ndigits": 22}, "tier": "open"}
+//@ OBL {"name": "h14f_ms", "prop": "vp_h14f_ms", "in": 8, "out": 16, "unwind": 14, "backends": ["kissat", "default"], "cap_s": 3600, "cassume": ["RD64(in,0) < (1LL<<12) && RD64(in,0) > -(1LL<<12)"], "bounds": "|count| < 2^12", "desc": "duration<ms> print -> parse identity (fraction digits)", "unwind_fn": {"VA9_snprintf": 50, "verif_ndigits": 22}, "tier": "open"}
+//@ OBL {"name": "h14f_h", "prop": "vp_h14f_h", "in": 8, "out": 16, "unwind": 14, "backends": ["kissat", "default"], "cap_s": 3600, "cassume": ["RD64(in,0) < (1LL<<12) && RD64(in,0) > -(1LL<<12)"], "bounds": "|count| < 2^12", "desc": "duration<hours> print -> parse identity", "unwind_fn": {"VA9_snprintf": 50, "verif_ndigits": 22}, "tier": "open"}
 //@ OBL {"name": "h14g_ms", "prop": "vp_h14g_ms", "in": 8, "out": 16, "unwind": 8, "backends": ["kissat", "default"], "cap_s": 900, "cassume": ["RD64(in,0) < (1LL<<24) && RD64(in,0) > -(1LL<<24)"], "bounds": "|count| < 2^24 ms", "desc": "time_point -> CBinTimestamp -> time_point identity", "unwind_fn": {"VA9_snprintf": 50, "verif_ndigits": 22}}
 //@ OBL {"name": "h14g_ns", "prop": "vp_h14g_ns", "in": 8, "out": 16, "unwind": 8, "backends": ["kissat", "default"], "cap_s": 900, "cassume": ["RD64(in,0) < (1LL<<24) && RD64(in,0) > -(1LL<<24)"], "bounds": "|count| < 2^24 ns", "desc": "time_point<ns> binary round trip", "unwind_fn": {"VA9_snprintf": 50, "verif_ndigits": 22}}
 //@ OBL {"name": "h14g_s", "prop": "vp_h14g_s", "in": 8, "out": 16, "unwind": 8, "backends": ["kissat", "default"], "cap_s": 900, "bounds": "every int64 second count", "desc": "time_point<s> binary round trip", "unwind_fn": {"VA9_snprintf": 50, "verif_ndigits": 22}}
